@@ -10,6 +10,7 @@ import (
 	"bytes"
 	"encoding/json"
 	"fmt"
+	"strings"
 	"testing"
 	"time"
 
@@ -243,4 +244,97 @@ func bitsLen(n int) int {
 		n >>= 1
 	}
 	return k
+}
+
+// TestVerifC18EventListBehaviour: an event list that went through JSON / CBOR (decoded with and without
+// ComputeProduct) must behave like the original when it is used: prepended to an update holding the newer
+// events and applied to a witness that is older than the list's first event, it must bring the witness to
+// the same value as the original list does.
+func TestVerifC18EventListBehaviour(t *testing.T) {
+	r := vkit.Start(t, "C18", "eventlist-behaviour", 60*time.Second, 300*time.Second)
+	defer r.Finish()
+	r.Rule = "history of 5 revocations; every split of the events 1..5 into an older list (first index 1, 2 or 3) and a newer update; the older list as original object, after JSON and after CBOR, decoded with ComputeProduct false / true; Update.Prepend + Witness.Update on witnesses issued at every index before the list; non-trivial = distinct (split, first index, form, witness index); oracle: same verdict and same witness value as with the original list object, and the witness is valid for the newest accumulator"
+	k := vfK("toyA")
+	w := c11NewWorld(k)
+	var creds []*Credential
+	for i := 0; i < 6; i++ {
+		// a credential issued at accumulator index i, then another value is revoked
+		creds = append(creds, w.issue(vfTag(fmt.Sprint("c18el-", i)), []*big.Int{vfTag("e1")}, i))
+		if i < 5 {
+			w.revoke(vfRevPrime(40 + i))
+		}
+	}
+	last := w.last()
+	for first := 1; first <= 3; first++ {
+		for split := first; split < last; split++ { // older list = events first..split, newer update = split+1..last
+			if _, mine := r.Next(); !mine {
+				continue
+			}
+			for _, form := range []string{"original", "json", "json+product", "cbor", "cbor+product"} {
+				mkList := func() (*revocation.EventList, error) {
+					var evs []*revocation.Event
+					for _, e := range w.events[first : split+1] {
+						c := *e
+						evs = append(evs, &c)
+					}
+					orig := revocation.NewEventList(evs...)
+					if form == "original" {
+						return orig, nil
+					}
+					out := &revocation.EventList{ComputeProduct: strings.HasSuffix(form, "+product")}
+					if strings.HasPrefix(form, "json") {
+						b, err := json.Marshal(orig)
+						if err != nil {
+							return nil, err
+						}
+						return out, json.Unmarshal(b, out)
+					}
+					b, err := cbor.Marshal(orig, cbor.EncOptions{})
+					if err != nil {
+						return nil, err
+					}
+					return out, cbor.Unmarshal(b, out)
+				}
+				for wi := 0; wi < first; wi++ {
+					r.Eval()
+					desc := fmt.Sprintf("list %d..%d + update %d..%d, %s, witness at %d", first, split, split+1, last, form, wi)
+					r.Nontrivial(desc)
+					apply := func(el *revocation.EventList) (string, error) {
+						upd := w.update(split + 1)
+						if err := upd.Prepend(el); err != nil {
+							return "", fmt.Errorf("Prepend: %w", err)
+						}
+						wit := *creds[wi].NonRevocationWitness
+						sacc := *wit.SignedAccumulator
+						wit.SignedAccumulator = &sacc
+						if err := (&wit).Update(k.Pk, upd); err != nil {
+							return "", fmt.Errorf("Witness.Update: %w", err)
+						}
+						if err := (&wit).Verify(k.Pk); err != nil {
+							return "", fmt.Errorf("updated witness invalid: %w", err)
+						}
+						return wit.U.String(), nil
+					}
+					el, err := mkList()
+					if err != nil {
+						r.Violate("C18|event-list-not-transportable|"+form, desc+": "+err.Error(), desc)
+						continue
+					}
+					var got string
+					var gerr error
+					if pan, msg := vkit.Guard(func() { got, gerr = apply(el) }); pan {
+						gerr = fmt.Errorf("panic: %s", msg)
+					}
+					// reference: the original list object; witnesses older than first-1 cannot use the list
+					// at all ("update too new"): then both must fail
+					evsO, _ := func() (*revocation.EventList, error) { f := form; form = "original"; defer func() { form = f }(); return mkList() }()
+					want, werr := apply(evsO)
+					r.Outcome(fmt.Sprintf("%s:applicable=%v:same as original=%v", form, werr == nil, (gerr == nil) == (werr == nil) && got == want))
+					if (gerr == nil) != (werr == nil) || got != want {
+						r.Violate("C18|re-read-event-list-behaves-differently|"+form, fmt.Sprintf("%s: original list: %v, re-read list: %v", desc, werr, gerr), desc)
+					}
+				}
+			}
+		}
+	}
 }
